@@ -44,7 +44,7 @@ RPC_EXEMPT = {'next_from_generator': 'legacy stub: no server binding and no'
 
 
 def run(ctx: Ctx):
-  for r in (r1, r2, r3, r4, r5, r6, r7, r9, r13, r14, r15, r16, r17, r18):
+  for r in (r1, r2, r3, r4, r5, r6, r7, r9, r13, r14, r15, r16, r17, r18, r19, r20):
     ctx.guard(r)
   from mlmverif.props import c04
   from mlmverif.props._queue import model as qmodel
@@ -332,6 +332,83 @@ def r18(ctx: Ctx):
                  f'{ci.name}.__eq__ compares value/args/kwargs before `{unparse(b.values[ids[0]])}`: two copies of the same'
                  ' cached call (same id) whose arguments contain a multi-element array raise ValueError in the cache'
                  ' lookup instead of being recognised — every later remote evaluation of that call fails', node=b)
+  ctx.floor(rule, 1, n)
+
+
+def r19(ctx: Ctx):
+  rule = 'R-C14-19'
+  ctx.rule(rule, '"evaluating a lazy expression on a server through a client returns the same value": an answer that HAS arrived is'
+           ' returned, whatever the registry says about the server meanwhile (a server sends its farewell heartbeat right'
+           ' after its last answer). In the poll loops of get_result / async_get_result every path from a suspension point'
+           ' (sleep) or from the call to the `raise ... disconnected` passes a test of `future.done()`: the liveness of the'
+           ' worker only matters while the answer is still outstanding')
+  repo = ctx.repo
+  n = 0
+  for qn in ('CourierClient.get_result', 'CourierClient.async_get_result'):
+    fi = repo.func(CU, qn)
+    g = cfgm.cfg_of(fi.node)
+    raises = [nd for nd in g.nodes if isinstance(nd.ast, ast.Raise) and nd.ast.exc is not None and 'disconnected' in unparse(nd.ast.exc).lower()]
+    if not raises:
+      ctx.info(rule, fi, f'{qn}: no "disconnected" raise')
+      continue
+    srcs = [nd for nd in g.nodes if any(isinstance(c, ast.Call) and unparse(c.func) in ('time.sleep', 'asyncio.sleep', 'self.call')
+                                        for x in cfgm.node_exprs(nd) for c in ast.walk(x))]
+    done = lambda nd: nd.kind == 'cond' and any(isinstance(c, ast.Call) and isinstance(c.func, ast.Attribute) and c.func.attr == 'done'
+                                                 for c in ast.walk(nd.ast))
+    for r_ in raises:
+      n += 1
+      w = None
+      for s_ in srcs:
+        w = w or g.must_pass(s_, [r_], done, cfgm.only_normal)
+      what = f'{qn}: the worker is declared disconnected only while the answer is outstanding'
+      if w is None:
+        ctx.ok(rule, fi, what, r_.ast)
+      else:
+        ctx.fail(rule, fi, what,
+                 f'`{unparse(r_.ast)[:60]}` is reachable without testing `future.done()` since the last suspension ({" -> ".join(w[-3:])}):'
+                 ' an answer that was computed and delivered is thrown away when the registry already lists the server as gone'
+                 ' (its farewell heartbeat follows its last answer) — the caller gets "Worker disconnected" instead of the value',
+                 node=r_.ast)
+  ctx.floor(rule, 2, n)
+
+
+def r20(ctx: Ctx):
+  rule = 'R-C14-20'
+  ctx.rule(rule, '"raises the same exception type and message as evaluating it locally": the server hands a caught exception to the'
+           ' client AS IT IS. In the handlers that answer with an exception (`except Exception as e` ... the answer is e) the'
+           ' caught exception is re-bound to another one only under the shutdown test (the one documented rewrite: a retriable'
+           ' TimeoutError while shutting down); any other rewrite (a missing-object KeyError into a TimeoutError, say) changes'
+           ' type and message the client sees')
+  repo = ctx.repo
+  mi = repo.module(CS)
+  n = 0
+  for ci in mi.classes.values():
+    for name, fi in ci.methods.items():
+      for h in ast.walk(fi.node):
+        if not (isinstance(h, ast.ExceptHandler) and h.name):
+          continue
+        pm = None
+        rebinds = [x for x in ast.walk(h) if isinstance(x, ast.Assign) and any(isinstance(t, ast.Name) and t.id == h.name for t in x.targets)]
+        if not rebinds:
+          continue
+        for x in rebinds:
+          n += 1
+          pm = pm or parent_map(h)
+          q, guards = x, []
+          while q in pm:
+            par = pm[q]
+            if isinstance(par, ast.If):
+              in_body = any(y is q for b in par.body for y in ast.walk(b))
+              guards.append((par.test, in_body))
+            q = par
+          ok = bool(guards) and all(in_body and '_shutdown_requested' in unparse(t) and not isinstance(t, ast.BoolOp) for t, in_body in guards[:1])
+          what = f'{fi.qualname}: a caught exception is rewritten only while shutting down'
+          if ok:
+            ctx.ok(rule, fi, what, x)
+          else:
+            ctx.fail(rule, fi, what,
+                     f'`{unparse(x)[:70]}` replaces the caught exception outside the shutdown test: the client receives another type'
+                     ' and message than the local evaluation raises', node=x)
   ctx.floor(rule, 1, n)
 
 
@@ -927,6 +1004,12 @@ from mlmverif.selfcheck import B, OK  # noqa: E402
 _S = 'chainables/courier_server.py'
 _U = 'utils/courier_utils.py'
 VARIANTS = [
+    B('liveness-tested-before-the-delivered-answer', 'utils/courier_utils.py',
+      "    while not future.done():\n      if not self.is_alive:\n        raise RuntimeError(f'Worker disconnected: {self}')\n      time.sleep(0)",
+      "    while self.is_alive:\n      if future.done():\n        break\n      time.sleep(0)\n    else:\n      raise RuntimeError(f'Worker disconnected: {self}')", 'R-C14-19'),
+    B('missing-object-answered-as-timeout', 'chainables/courier_server.py',
+      "        e = TimeoutError('Shutdown requested, the worker is shutting down.')\n      if not return_exception:",
+      "        e = TimeoutError('Shutdown requested, the worker is shutting down.')\n      elif isinstance(e, KeyError):\n        e = TimeoutError(f'restarted: {e}')\n      if not return_exception:", 'R-C14-20'),
     B('error-log-indexes-args', 'chainables/courier_server.py',
       "            'chainable: %s', f'maybe_make exception for {maybe_lazy}.'", "            'chainable: %s', f'maybe_make exception for {maybe_lazy}: {e.args[0]}'", 'R-C14-17'),
     OK('error-log-formats-the-exception', 'chainables/courier_server.py',
